@@ -56,7 +56,16 @@ def _run_variant(v):
     out = {'id': v['id'], 'expect': v['expect'], 'results': {}, 'error': None}
     try:
         make_copy(d)
-        err = apply_edits(d, v['edits'])
+        if v.get('auto'):
+            from . import transforms
+            try:
+                dict(transforms.AUTO)[v['auto']](d)
+                err = None
+            except Exception as e:   # the transformation itself failed
+                err = 'transformation failed: %s: %s' % (type(e).__name__,
+                                                         e)
+        else:
+            err = apply_edits(d, v['edits'])
         if err:
             out['error'] = err
             return out
@@ -105,7 +114,10 @@ def judge(v, out):
 
 def run(jobs=16, only=None, kind=None):
     from .mutants import VARIANTS
-    vs = VARIANTS
+    from .transforms import AUTO
+    allprops = ['C%02d' % i for i in range(1, 21)]
+    vs = VARIANTS + [{'id': name, 'props': allprops, 'expect': 'silent',
+                      'edits': [], 'auto': name} for name, _f in AUTO]
     if only:
         vs = [v for v in vs if only in v['id'] or only in v['props']]
     if kind:
